@@ -6,7 +6,8 @@ import Webp.Impl.Transcribed
   It closes the goal with `decide +kernel` (the kernel evaluates the numeric comparisons).  When that
   fails it evaluates the left-hand side with `Lean.Meta.whnf`, element by element, and reports the
   KEYS of the stale entries in the first line of the error message, so that `./check` (which keeps
-  the lines containing "error") shows which transcribed Go functions changed.
+  the lines containing "error") shows which Go declarations changed (a transcribed function, a
+  same-package function it reaches, or a package-level constant / variable: `pkg.const:Name`).
   Only the error message is produced by this code; a proof is always the kernel's `decide`.
 -/
 namespace Webp.Proofs.ModelCurrent
@@ -38,7 +39,7 @@ elab "model_current" : tactic => do
     | some (_, lhs, _) =>
       let names := (← listStrings lhs).eraseDups
       let shown := ", ".intercalate names
-      throwError "model currency: {names.length} transcribed Go function(s) changed since the model was validated: {shown} -- re-validate the model(s), then run tools/update_fingerprints.py"
+      throwError "model currency: {names.length} pinned Go declaration(s) (transcribed functions, their same-package callees, constants, variables) changed since the model was validated: {shown} -- re-validate the model(s), then run tools/update_fingerprints.py"
     | none => throwError "model_current: goal is not of the form `stale xs = []`"
 
 end Webp.Proofs.ModelCurrent
